@@ -89,6 +89,12 @@ func apply(c Case) ([]lg.Reply, string) {
 	reps := lg.ValidReplies(c.Encrypt, c.KeyBits, nonce(c.Nonce))
 	for i := range reps {
 		reps[i].Pack = c.Pack
+		if c.Pack == 4 && i != len(reps)-1 {
+			// only the last reply ends with an empty EOM packet: the library hands header-only packets to
+			// the consumer as packages of their own, in the middle of the conversation that is C02's
+			// unspecified region
+			reps[i].Pack = 0
+		}
 	}
 	note := ""
 	for _, e := range c.Edits {
@@ -252,7 +258,7 @@ func apply(c Case) ([]lg.Reply, string) {
 	return reps, note
 }
 
-var keyNames = []string{"empty", "not-pem", "truncated-pem", "wrong-block-type", "pem-plus-trailing-bytes", "512-bit", "garbage-der"}
+var keyNames = []string{"empty", "not-pem", "truncated-pem", "wrong-block-type", "pem-plus-trailing-bytes", "512-bit", "garbage-der", "newline-only", "blanks-only", "nul-bytes-only", "pem-plus-trailing-newlines"}
 
 func keyVariant(v, bits int) []byte {
 	pemb := lg.PublicPEM(bits)
@@ -269,6 +275,14 @@ func keyVariant(v, bits int) []byte {
 		return append(append([]byte{}, pemb...), []byte("trailing")...)
 	case 5:
 		return lg.PublicPEM(512)
+	case 7:
+		return []byte("\n")
+	case 8:
+		return []byte("  \r\n\t ")
+	case 9:
+		return []byte{0, 0, 0, 0}
+	case 10:
+		return append(append([]byte{}, pemb...), []byte("\n\n")...)
 	}
 	return []byte("-----BEGIN RSA PUBLIC KEY-----\nAAAA\n-----END RSA PUBLIC KEY-----\n")
 }
@@ -412,8 +426,10 @@ func verdict(c Case, reps []lg.Reply, note string) (string, string, string) {
 		return "must-fail", "key too small for nonce and session key", size
 	}
 	switch note {
-	case "empty", "not-pem", "truncated-pem", "pem-plus-trailing-bytes", "garbage-der":
+	case "empty", "not-pem", "truncated-pem", "pem-plus-trailing-bytes", "garbage-der", "newline-only", "blanks-only", "nul-bytes-only":
 		return "must-fail", "unusable key (" + note + ")", size
+	case "pem-plus-trailing-newlines":
+		unspec = true // a complete key followed by white space: accepting or rejecting it is not covered by the statement
 	case "512-bit":
 		if c.Nonce+len("secret-password") > 64-42 {
 			return "must-fail", "key too small for nonce and password", size
@@ -616,7 +632,7 @@ func main() {
 		h.Sample(func() interface{} { return c })
 	}
 	var bases []Case
-	for pack := 0; pack <= 2; pack++ {
+	for _, pack := range []int{0, 1, 2, 4} {
 		bases = append(bases, Case{Encrypt: false, Pack: pack})
 		for _, bits := range []int{1024, 1536, 2048} {
 			for _, n := range []int{0, 1, 16, 32, bits/8 - 42 - 32 - 1, bits/8 - 42 - 32, bits/8 - 42 - 32 + 1} {
@@ -632,7 +648,7 @@ func main() {
 	}
 	// single edits on a reduced set of bases (all packetisations; one key size per nonce length)
 	var eb []Case
-	for pack := 0; pack <= 2; pack++ {
+	for _, pack := range []int{0, 1, 2, 4} {
 		eb = append(eb, Case{Encrypt: false, Pack: pack}, Case{Encrypt: true, KeyBits: 1024, Nonce: 16, Pack: pack})
 	}
 	eb = append(eb, Case{Encrypt: true, KeyBits: 2048, Nonce: 32, Remotes: 1, Pack: 0})
